@@ -49,7 +49,7 @@ def step (s : St) (line : String) : IO St := do
     let d := (kvGet ws "live_delta").toInt?.getD 1
     let lk := kvGet ws "leak"
     let j := if judgeBalance d && lk == "" then "ok"
-      else if lk != "" then s!"FAIL:allocator-balance:query:{lk}"
+      else if lk != "" then s!"FAIL:allocator-balance:detail:{lk}"
       else s!"FAIL:allocator-balance:{d}"
     IO.println s!"{id} kind=hist corr=na judge={j} hkind={kvGet ws "kind"} lang={kvGet ws "lang"} allocs={kvGet ws "allocs"}"
     return s
